@@ -34,6 +34,7 @@ TABLE = [
     (C("Mahony", "IMU", gain="high"), {"k_P": 10.0, "frequency": 25.0}, (0, 0, 1), None, "B", 6000, 1e-3, "batch"),
     (C("Mahony", "MARG", gain="high"), {"k_P": 10.0, "frequency": 25.0}, (0, 0, 1), (0, 1 / S5, 2 / S5), "B", 12000, 3e-3, "batch"),
     (C("EKF", "IMU", frame="NED"), {}, (0, 0, 1), None, "B", 3000, 1e-3, "batch"),
+    (C("EKF", "IMU", frame="ENU"), {}, (0, 0, -1), None, "B", 3000, 1e-3, "batch"),
     (C("EKF", "MARG", frame="NED"), {"magnetic_ref": DIPDEG}, (0, 0, 1), (1 / S5, 0, 2 / S5), "B", 20000, 1e-3, "batch"),
     (C("EKF", "MARG", frame="ENU"), {"magnetic_ref": DIPDEG}, (0, 0, -1), (0, 1 / S5, -2 / S5), "B", 20000, 1e-3, "batch"),
     (C("AQUA", "IMU", mode="fixed"), {}, (0, 0, 1), None, "A", 4000, 1e-3, "batch"),
